@@ -458,6 +458,39 @@ impl Exec for TlvViewExec {
                 if ta.partial_cmp(&tb) != Some(c) || (ta < tb) != (x < y) || (ta == tb) != (x == y) || tb.cmp(&ta) != c.reverse() {
                     bad("PartialOrd / Eq / Ord are inconsistent");
                 }
+                // track traits: Hash agrees with Eq, Clone / Copy give equal values, `ne` is `!eq`, min / max / clamp
+                // follow Ord, Debug does not panic, hashed and ordered collections see one key per value
+                {
+                    use std::hash::{Hash, Hasher};
+                    let h = |t: &Tag| {
+                        let mut s = std::collections::hash_map::DefaultHasher::new();
+                        t.hash(&mut s);
+                        s.finish()
+                    };
+                    if (ta == tb) && h(&ta) != h(&tb) {
+                        bad("equal tags hash differently");
+                    }
+                    let tc = ta.clone();
+                    let td = ta;
+                    if tc != ta || td != ta || h(&tc) != h(&ta) || tc.cmp(&ta) != std::cmp::Ordering::Equal {
+                        bad("a clone / copy of a tag is not equal to it");
+                    }
+                    if (ta != tb) == (ta == tb) {
+                        bad("`!=` is not the negation of `==`");
+                    }
+                    if ta.max(tb).value() != x.max(y) || ta.min(tb).value() != x.min(y) || (ta <= tb) != (x <= y) || (ta >= tb) != (x >= y) || (ta > tb) != (x > y) {
+                        bad("min / max / comparison operators do not follow the little-endian values");
+                    }
+                    let hs: std::collections::HashSet<Tag> = [ta, tb, tc].into_iter().collect();
+                    let bs: std::collections::BTreeSet<Tag> = [ta, tb, tc].into_iter().collect();
+                    let want = if x == y { 1 } else { 2 };
+                    if hs.len() != want || bs.len() != want {
+                        bad("HashSet / BTreeSet do not see one key per tag value");
+                    }
+                    if format!("{:?}", ta).is_empty() || format!("{:#?}", tb).is_empty() {
+                        bad("empty Debug output");
+                    }
+                }
                 let ord = |o: std::cmp::Ordering| match o {
                     std::cmp::Ordering::Less => "lt",
                     std::cmp::Ordering::Equal => "eq",
